@@ -373,12 +373,12 @@ GATE_EMIT = ["gate_q", "gateadmin_t"]
 PLANS = {
     "C01": plan(["flow_q", "ibc_q"], FLOW_MC + IBC_MC, ["flow_q", "ibc_q"], FLOW_EMIT + IBC_EMIT, W_Q, W_T, reach=["HonestOutstanding"]),
     "C02": plan(["flow_q", "ibc_q", "fees_q"], FLOW_MC + IBC_MC + ["fees_t"], ["flow_treasury_q", "fees_q", "ibc_q"],
-                ["flow_t", "flow_treasury_t", "fees_t"] + IBC_EMIT, W_Q, W_T, reach=["Received"]),
+                ["flow_t", "flow_treasury_t", "fees_t"] + IBC_EMIT, W_Q, W_T, reach=["Received"], scen=["KF2"]),
     "C03": plan(["flow_q", "ibc_q"], FLOW_MC + IBC_MC, ["flow_q", "ibc_q"], FLOW_EMIT + IBC_EMIT, W_Q, W_T),
     "C04": plan(["flow_q"], FLOW_MC, ["flow_q"], ["flow_extras_t", "flow_t"], W_Q, W_T),
     "C05": plan(["flow_q"], FLOW_MC, ["flow_q"], FLOW_EMIT, W_Q, W_T, reach=["Received"]),
     "C06": plan(["flow_q"], FLOW_MC, ["flow_q"], FLOW_EMIT, W_Q, W_T, reach=["Received"]),
-    "C07": plan(["ibc_q"], IBC_MC, ["ibc_q"], IBC_EMIT + ["ibc_q"], W_Q, W_T, reach=["Refundable"]),
+    "C07": plan(["ibc_q"], IBC_MC, ["ibc_q"], IBC_EMIT + ["ibc_q"], W_Q, W_T, reach=["Refundable"], scen=["KF2"]),
     "C08": plan(["gate_q", "own"], GATE_MC + ["own_t"], ["gate_q", "own"], GATE_EMIT + ["own_t"], W_Q, W_T),
     "C09": plan(["gate_q"], GATE_MC, ["gate_q"], GATE_EMIT, W_Q, W_T, scen=["C09"]),
     "C10": plan(["gate_q"], GATE_MC, ["gate_q"], GATE_EMIT, W_Q, W_T),
@@ -734,6 +734,7 @@ def run_property(prop, tier, seed):
         n, findings = validate_trace(path, wd)
         total_lines += n
         for f in findings:
+            f["tag"] = tag
             if prop in f.get("props", []):
                 k = is_known(prop, f, known)
                 if k:
